@@ -10,7 +10,7 @@ import Mathlib.Tactic.IntervalCases
 namespace CryoCat.C14
 open Finset
 
-variable {K : Type} [Field K]
+variable {K : Type} [_root_.Field K]
 
 /-! ### abstract: a map supported on an invariant finite set -/
 section abstract
